@@ -485,6 +485,7 @@ impl Monitor for C06 {
             ("class:sizes_up_to_40", 200),
             ("class:tables_of_more_than_256_entries", 100),
             ("class:sparse_identifications_over_a_large_codomain", 50),
+            ("class:tournament_coequalizer", 30),
             ("class:long_identification_chain_on_a_thread_stack", 6),
             ("outcome:compose_Some", 100),
             ("outcome:compose_None", 100),
@@ -580,7 +581,7 @@ impl Monitor for C06 {
                     let g: F = (r.vec_below(k, b), b);
                     ctx.class("sparse_identifications_over_a_large_codomain");
                     self.pair(ctx, &f, &g);
-                } else if r.chance(1, 4000) || (ctx.thorough && r.chance(1, 400)) {
+                } else if r.chance(1, 500) {
                     // deep identification trees: 2^k points merged in tournament order
                     let k = 9 + r.below(3) as u32;
                     let (n, pairs) = crate::gen::tournament_pairs(r, k);
